@@ -38,6 +38,7 @@ def cases(tier, seed):
             d = files.wspec_desc(rng, shape, rate, bs, kind='numpy', il=[rng.choice([0, 3, -9]), rng.choice([1, 2])], xl=[5, 2])
             out.append({'id': 'np:%s:%s:%d' % (rate, 'x'.join(map(str, bs)), rep), 'file': d, 'nreq': 6, 'cost': 3})
     out.append({'id': 'refuse-2d', 'file': {'kind': 'fixture', 'rel': 'small-2d.sgz'}, 'nreq': 1, 'cost': 1})
+    out.append({'id': 'refuse-irregular', 'file': {'kind': 'fixture', 'rel': 'small-irregular.sgz'}, 'nreq': 1, 'cost': 1})
     return out
 
 
@@ -89,16 +90,18 @@ def run_case(case, ctx):
     out = sc.file('crop.sgz')
     bad, strata = [], set()
     ncrops = ninvalid = 0
-    if case['id'] == 'refuse-2d':
+    if case['id'].startswith('refuse-'):
+        # sources the cropper cannot re-address as a structured sub-cube: must be refused, nothing written
+        what = case['id'][7:]
         try:
             with env.quiet():
                 with SgzCropper(path) as c:
                     c.write_cropped_file_by_indexes(out, (0, 4), None, None)
-            bad.append({'sig': 'crop:2d-source-not-refused', 'detail': 'cropping a 2D file returned'})
+            bad.append({'sig': 'crop:%s-source-not-refused' % what, 'detail': 'cropping a %s file returned' % what})
         except Exception:  # noqa
             if os.path.exists(out):
-                bad.append({'sig': 'crop:refusal-leaves-output-file', 'detail': '2D source'})
-        return {'violations': bad, 'counters': {'invalid_requests': 1}, 'strata': ['refuse-2d'], 'key': case['id']}
+                bad.append({'sig': 'crop:refusal-leaves-output-file', 'detail': '%s source: %d bytes left behind' % (what, os.path.getsize(out))})
+        return {'violations': bad, 'counters': {'invalid_requests': 1}, 'strata': [case['id']], 'key': case['id']}
     sp = oracles.Spec(path)
     V = sp.decode()
     F = spec_fields(sp) if sp.stored or any(r[1] for r in sp.table) else {k: np.zeros(sp.grid_traces, dtype=np.int64) for k in KEYS}
@@ -214,7 +217,7 @@ def run_case(case, ctx):
 def finalize(tier, cases, results, counters, strata):
     reasons = []
     need = ['layout:default', 'layout:zslice', 'layout:general', 'form:index', 'form:coords', 'invalid:empty', 'invalid:inverted', 'invalid:outside-high',
-            'invalid:outside-low', 'invalid:none', 'invalid:absent', 'refuse-2d'] + ['req-%s:%s' % (a, k) for a in 'ixz' for k in ('aligned', 'unaligned', 'tail', 'full', 'none', 'one')]
+            'invalid:outside-low', 'invalid:none', 'invalid:absent', 'refuse-2d', 'refuse-irregular'] + ['req-%s:%s' % (a, k) for a in 'ixz' for k in ('aligned', 'unaligned', 'tail', 'full', 'none', 'one')]
     for s in need:
         if s not in strata:
             reasons.append('required stratum not hit: ' + s)
